@@ -23,3 +23,147 @@ Proof.
     | exact tbl_src_to_mir_function_list | exact tbl_ast_to_mir ].
 Qed.
 Print Assumptions C11_tables.
+
+(* ---------------------------------------------------------------------------------------------
+   Program level, for EVERY program of the surface language (scalars, collections, functions,
+   nested definitions) traced by the model with the regenerated scalar rules. *)
+From Coq Require Import Lia Permutation.
+From NadaV.PyMini Require Import PyMini.
+From NadaV.Model Require Import Rules Corr Mir Surface Trace Compile.
+From NadaV.Proofs Require Import ScalarInv TraceMono C11Proofs C11Program.
+Open Scope Z_scope.
+
+(* The tracer only adds operations, under ids above the counter it started from: nothing recorded is
+   ever overwritten or removed, whatever the program. *)
+Theorem C11_store_only_grows : forall fuel ρ ss s ρ' s',
+  Inv ρ s -> exec GenScalar.G fuel ρ ss s = Ok (ρ', s') ->
+  counter s <= counter s' /\
+  exists new, store s' = (new ++ store s)%list /\ Forall (fun e => counter s < fst e <= counter s' /\ True) new.
+Proof.
+  intros fuel ρ ss s ρ' s' HI H. destruct (exec_inv GenScalar.G fuel ρ ss s ρ' s' HI H) as [_ Hg]. exact Hg.
+Qed.
+Print Assumptions C11_store_only_grows.
+
+(* A definition leaves one function record under a fresh id with the definition's name, and one argument
+   record per parameter — the parameter's name, the annotation's type, in the written order; the body is
+   traced with each parameter name bound to the value carrying that argument record's id; the records are
+   still there, unchanged, at the end of the enclosing block. *)
+Theorem C11_definition_recorded : forall n ρ f params rt body res rest s ρ' s',
+  Inv ρ s -> exec GenScalar.G (S n) ρ (SDef f params rt body res :: rest) s = Ok (ρ', s') ->
+  exists t, rt = IScalar t /\ fst t <> MConst
+    /\ forallb (fun p => is_const_scalar (snd p)) params = false
+    /\ def_recorded s' (counter s + 1) f params t
+    /\ exists args s1 ρb s2,
+         exec GenScalar.G n (body_env args ρ) body s1 = Ok (ρb, s2)
+         /\ Forall2 (fun a p => fst (snd a) = fst p /\ wid (snd (snd a)) = Some (fst a)
+                                /\ is_arg s' (counter s + 1) (fst a) (fst p)) args params.
+Proof. exact (definition_recorded GenScalar.G). Qed.
+Print Assumptions C11_definition_recorded.
+
+(* ... and down to the MIR: the function emitted under that id has the definition's name, parameter
+   names, parameter order and parameter types. *)
+Theorem C11_mir_function_is_the_definition : forall s fid f params t fs0 outs m fs' mf,
+  def_recorded s fid f params t ->
+  compile (store s) fs0 outs = Ok (m, fs') -> In mf (m_functions m) -> f_id mf = fid ->
+  f_name mf = f /\ f_ret_ty mf = TyName (mir_name t)
+  /\ Forall2 (fun a p => a_name a = fst p /\ param_mir (snd p) = Ok (a_ty a)) (f_args mf) params.
+Proof. exact mir_function_is_the_definition. Qed.
+Print Assumptions C11_mir_function_is_the_definition.
+
+(* Every function of the MIR is read from the record stored under its id (any store), and no function is
+   emitted twice however many sites refer to it. *)
+Theorem C11_functions_from_records : forall st fs0 outs m fs',
+  compile st fs0 outs = Ok (m, fs') -> Forall (fun_from_store st) (m_functions m).
+Proof. exact compile_functions_from_records. Qed.
+Print Assumptions C11_functions_from_records.
+
+Theorem C11_each_function_once : forall st fs0 outs m fs',
+  compile st fs0 outs = Ok (m, fs') -> NoDup fs0 ->
+  NoDup (map f_id (m_functions m)) /\ Permutation fs' (map f_id (m_functions m)).
+Proof.
+  intros st fs0 outs m fs' H Hn. split;
+    [exact (compile_functions_once _ _ _ _ _ H Hn) | exact (compile_functions_are_the_discovered _ _ _ _ _ H Hn)].
+Qed.
+Print Assumptions C11_each_function_once.
+
+(* Every map, reduce and call records the id of the function its name is bound to where it is written,
+   the operands in the written order, and that id's record is the one the binding's definition left. *)
+Theorem C11_map_bound : forall ρ a f s w s1,
+  Inv ρ s -> eval_rhs GenScalar.G ρ (RMap a f) s = Ok (w, s1) ->
+  exists fr x src id,
+    assoc f ρ = Some (BFun fr) /\ assoc a ρ = Some (BWrap x) /\ wid x = Some src /\ wid w = Some id
+    /\ recorded s1 id (AMap src (fn_id fr)) /\ fun_rec s1 f fr.
+Proof. exact (map_site GenScalar.G). Qed.
+Print Assumptions C11_map_bound.
+
+Theorem C11_reduce_bound : forall ρ a f init s w s1,
+  Inv ρ s -> eval_rhs GenScalar.G ρ (RReduce a f init) s = Ok (w, s1) ->
+  exists fr x src i ini id,
+    assoc f ρ = Some (BFun fr) /\ assoc a ρ = Some (BWrap x) /\ wid x = Some src
+    /\ assoc init ρ = Some (BWrap i) /\ wid i = Some ini /\ wid w = Some id
+    /\ recorded s1 id (AReduce src (fn_id fr) ini) /\ fun_rec s1 f fr.
+Proof. exact (reduce_site GenScalar.G). Qed.
+Print Assumptions C11_reduce_bound.
+
+Theorem C11_call_bound : forall ρ f args kwargs s w s1,
+  Inv ρ s -> eval_rhs GenScalar.G ρ (RCall f args kwargs) s = Ok (w, s1) ->
+  exists fr ws ks all ids id,
+    assoc f ρ = Some (BFun fr) /\ Forall2 (bound_to ρ) args ws /\ Forall2 (bound_to ρ) (map snd kwargs) ks
+    /\ call_args fr ws (map fst kwargs) ks all
+    /\ Forall2 has_id all ids /\ wid w = Some id
+    /\ recorded s1 id (ACall ids (fn_id fr)) /\ fun_rec s1 f fr.
+Proof. exact (call_site GenScalar.G). Qed.
+Print Assumptions C11_call_bound.
+
+(* keyword arguments take the position of the parameter they name, after the positional ones *)
+Theorem C11_keyword_arguments_by_parameter : forall params pos kw all,
+  bind_partial params pos kw = Ok all ->
+  exists tail, all = (pos ++ tail)%list
+               /\ Forall2 (fun p w => assoc p kw = Some w)
+                          (firstn (List.length tail) (skipn (List.length pos) params)) tail.
+Proof. exact bind_partial_spec. Qed.
+Print Assumptions C11_keyword_arguments_by_parameter.
+
+(* The invariant [Inv] the three site theorems assume holds at every point a program reaches: it holds of
+   the empty process and every statement (nested bodies included) preserves it; in particular at the end
+   every function reference in the store resolves to a function record and every function record's
+   arguments to its own argument records. *)
+Theorem C11_invariant_everywhere : forall fuel ρ ss s ρ' s',
+  Inv ρ s -> exec GenScalar.G fuel ρ ss s = Ok (ρ', s') -> Inv ρ' s'.
+Proof. intros fuel ρ ss s ρ' s' HI H. destruct (exec_inv GenScalar.G fuel ρ ss s ρ' s' HI H) as [HI' _]. exact HI'. Qed.
+Print Assumptions C11_invariant_everywhere.
+
+Theorem C11_programs_consistent : forall fuel ss ρ' s',
+  exec GenScalar.G fuel [] ss init_state = Ok (ρ', s') -> Inv ρ' s'.
+Proof. exact (program_functions_consistent GenScalar.G). Qed.
+Print Assumptions C11_programs_consistent.
+
+(* Restrictions: a definition whose return type is a literal type (or an array), or whose parameters are all
+   of literal types, never succeeds — whatever its body, the fuel and the state. *)
+Theorem C11_literal_return_rejected : forall n ρ f params b body res rest s ρ' s',
+  exec GenScalar.G n ρ (SDef f params (IScalar (MConst, b)) body res :: rest) s <> Ok (ρ', s').
+Proof. intros. apply literal_return_rejected. Qed.
+Print Assumptions C11_literal_return_rejected.
+
+Theorem C11_literal_parameters_rejected : forall n ρ f params rt body res rest s ρ' s',
+  forallb (fun p => is_const_scalar (snd p)) params = true ->
+  exec GenScalar.G n ρ (SDef f params rt body res :: rest) s <> Ok (ρ', s').
+Proof. intros. apply literal_parameters_rejected. assumption. Qed.
+Print Assumptions C11_literal_parameters_rejected.
+
+(* the hypotheses are satisfiable: a program with a two-parameter function used by a reduce and a call *)
+Example C11_example :
+  exists ρ' s', exec GenScalar.G 40 []
+    [ SLet "a" (RInput "a" "P" "" (IArray (IScalar (MSecret, BInt)) (Some 3)));
+      SLet "z" (RInput "z" "P" "" (IScalar (MSecret, BInt)));
+      SLet "u" (RInput "u" "P" "" (IScalar (MPublic, BInt)));
+      SDef "f" [("x", IScalar (MSecret, BInt)); ("k", IScalar (MPublic, BInt))] (IScalar (MSecret, BInt))
+           [SLet "r" (RBin OSub "x" "k")] "r";
+      SLet "q" (RReduce "a" "f" "z");
+      SLet "c" (RCall "f" ["z"] [("k", "u")]) ] init_state = Ok (ρ', s')
+    /\ def_recorded s' 4 "f" [("x", IScalar (MSecret, BInt)); ("k", IScalar (MPublic, BInt))] (MSecret, BInt).
+Proof.
+  eexists. eexists. split; [vm_compute; reflexivity|].
+  eexists. eexists. split; [vm_compute; reflexivity|].
+  repeat constructor; eexists; (split; [reflexivity | vm_compute; reflexivity]).
+Qed.
